@@ -40,6 +40,10 @@ Inductive case :=
 | RCase (rows : list (list Z))
     (* registry, concurrent first use of fresh names: per name [g; do-entrants; distinct breakers; lost marks;
        probe via another handle rejected; probe via Do(name) rejected; forced] *)
+| CCase (g fails let_in : Z)
+    (* concurrent draws: after `fails` failures on a fresh breaker (frozen clock), g goroutines call Allow / Do together
+       while the first draw is held inside Proba.TrueOnProba until all are inside; every draw is coin 0; let_in = how many
+       were let through *)
 | MCase (side : nat) (calls : list (nat * Z * nat)) (rej : list bool) (st : list Z).
     (* mixed stream on a frozen clock: side 0 client BreakerInterceptor, 1 server unary, 2 server stream interceptor,
        3 / 4 the HTTP engine's default chain (api/engine.go bindRoute) with Config.Timeout = 0 / > 0.
@@ -128,7 +132,14 @@ Definition m_mark (class : nat) (code : Z) : bool :=
 
 (* HTTP through the engine's chain: RecoverHandler sits inside BreakerHandler, so a panic is a 500 *)
 Definition h_shape (class : nat) (code : Z) : shape :=
-  match class with 0%nat => SHeader code | 1%nat => SWrite | 2%nat => SNothing | _ => SPanic end.
+  match class with
+  | 0%nat => SHeader code | 1%nat => SWrite | 2%nat => SNothing
+  (* the client disconnects MID-FLIGHT (request context cancelled after the breaker let the call in, while the route
+     runs; the route gives up without writing): 10 with a timeout handler in the chain (Config.Timeout > 0), which
+     answers 499 (timeouthandler.go:110-122); 11 without one (Timeout = 0): the route's empty response, an implicit 200 *)
+  | 10%nat => SHeader 499 | 11%nat => SNothing
+  | _ => SPanic
+  end.
 Definition h_mark (class : nat) (code : Z) : bool := http_mark true (h_shape class code).
 Definition is_http (side : nat) : bool := Nat.eqb side 3 || Nat.eqb side 4.
 Definition is_chain (side : nat) : bool := Nat.eqb side 5 || Nat.eqb side 6.   (* 6: a started rpc/internal Server (Start's chain + added timeout interceptor) *)     (* the composed client chain of rpc/internal/client.go *)
@@ -201,6 +212,12 @@ Definition model_ok (c : case) : bool :=
   | HCase k st code ok =>
       (code =? http_code (hguard k) (hshape k st)) && Bool.eqb ok (http_mark (hguard k) (hshape k st))
   | RCase rows => forallb r_row_ok rows
+  | CCase g fails let_in =>
+      (* every caller makes its own draw (mathx/proba.go:26-31: Lock; r.Float64() < proba; Unlock): accept is the same
+         function of the same window for each of them; let-in calls only add success marks, never lowering the excess below
+         what a rejection needs here (the driver's callers succeed; with coin 0 nobody is let in when the excess is positive) *)
+      let n2 := excess2 0 fails in
+      let_in =? (if (0 <? n2) && coin_lt_f 0 n2 (fails + 1) then 0 else g)
   | MCase side calls rej st =>
       if is_http side then m_run h_mark [] calls rej && h_status calls rej st
       else m_run m_mark [] calls rej && (if is_chain side then c_status calls rej st else true)
@@ -310,6 +327,10 @@ Definition spec_ok (c : case) : bool :=
                           | [g; ndo; distinct; miss; pb; pd; forced] => (distinct =? 1) && (miss =? 0) && (pb =? 1) && (pd =? 1)
                           | _ => false
                           end) rows
+  | CCase g fails let_in =>
+      (* the draw (coin 0) says drop whenever the ratio is positive: then NONE of the concurrent callers may be let in --
+         a caller is never let in just because another goroutine is sampling *)
+      if 0 <? ratio_num 0 fails then let_in =? 0 else true
   | MCase side calls rej st =>
       (* cut off only on real failure excess OF THE SAME NAME (Canceled and the other benign codes, statuses below 500,
          and whatever happens under another method / route never move a breaker), and a dependency that keeps
